@@ -228,7 +228,13 @@ pub fn run_plan(plan: Plan, tier: Tier) -> Outcome
                 continue;
             }
             let mut v = f.clone();
-            if vp == "*" { v.violation.property = plan.property.to_string(); }
+            if vp != plan.property
+            {
+                // reported under this check's property (a panic, or a rule of another property that this plan's
+                // universe makes equivalent to its own)
+                v.violation.signature = format!("{}[{}]", v.violation.signature, vp);
+                v.violation.property = plan.property.to_string();
+            }
             match classify(&findings, &v.violation)
             {
                 Some(k) =>
